@@ -1,8 +1,11 @@
-(* Extraction of the relativedelta model and specs (C03, C09, C16).  ExtrOcamlBasic only. *)
+(* Extraction of the relativedelta model + the C16 additions and specs (area "rdalg" ->
+   bin/oracle_rdalg).  ExtrOcamlBasic only.  The wire format of values is the one of
+   extract/ExtractRd.v (harness/rd_common.py encodes/decodes it); the decoders/encoders are
+   repeated here because that file belongs to the C03/C09 builder. *)
 Require Extraction.
 Require Import ExtrOcamlBasic.
 From Coq Require Import ZArith List Bool.
-From V Require Import base.Cal gen.RdTables rd.RdBase rd.RdModel rd.RdSpec.
+From V Require Import base.Cal gen.RdTables rd.RdBase rd.RdModel rd.RdAlgModel rd.RdAlgSpec.
 Import ListNotations.
 Open Scope Z_scope.
 
@@ -121,15 +124,25 @@ Definition with3 {A B C : Type} (da : dec A) (db : dec B) (dc : dec C) (args : l
   | None => bad
   end.
 
-Definition diff_report (dt1 dt2 : pydt) (d : rd) : list Z :=
-  let '(c1, c2) := coerce_pair dt1 dt2 in
-  [e_b (diff_ok dt1 dt2 d); e_b (only_relative d); e_b (diff_normalised_b d);
-   e_b (match spec_add d c2 with Some x => pydt_eqb x c1 | None => false end);
-   e_b (months_maximal c1 c2 d)].
+Definition d_pos : dec positive := fun l =>
+  match l with x :: r => if 0 <? x then Some (Z.to_pos x, r) else None | [] => None end.
+
+Definition e_canon (d : rd) : list Z :=
+  let '(w, r, lp, a) := canon d in
+  (match w with Some (k, n) => [1; k; n] | None => [0; 0; 0] end) ++ e_rel r ++ [lp] ++ e_abs a.
+
+Definition with5 {A B C D E : Type} (da : dec A) (db : dec B) (dc : dec C) (dd : dec D) (de : dec E)
+  (args : list Z) (f : A -> B -> C -> D -> E -> list Z) : list Z :=
+  match da args with Some (a, l) =>
+  match db l with Some (b, l) =>
+  match dc l with Some (c, l) =>
+  match dd l with Some (d, l) =>
+  match de l with Some (e, []) => f a b c d e
+  | _ => bad end | None => bad end | None => bad end | None => bad end | None => bad end.
 
 Definition dispatch (n : Z) (args : list Z) : list Z :=
   match n with
-  (* model *)
+  (* model (same numbers as ExtractRd.v) *)
   | 1 => with1 d_kw args (fun k => e_res e_rd (mk k))
   | 2 => with2 d_rd d_dt args (fun d o => e_res e_dt (add_dt d o))
   | 3 => with2 d_rd d_dt args (fun d o => e_res e_dt (rsub d o))
@@ -144,17 +157,15 @@ Definition dispatch (n : Z) (args : list Z) : list Z :=
   | 12 => with1 d_rd args e_hash
   | 13 => with1 d_rd args (fun d => [e_b (rd_bool d)])
   | 14 => with1 d_rd args (fun d => [e_b (has_time d)])
-  | 15 => with2 d_dt d_dt args (fun a b => e_res e_rd (mk_diff a b))
-  | 16 => with2 d_rd d_dt args (fun d o => e_res e_dt (radd d o))
+  (* C16 additions *)
+  | 30 => with5 d_z d_pos d_z d_pos d_kw args (fun yn yd mn md k => e_res e_rd (mk_frac yn yd mn md k))
+  | 31 => with1 d_rd args (fun d => e_res e_rd (mk (fields_of d)))
+  | 32 => with2 d_rd d_rel args (fun d t => e_rd (add_td d (f_days t) (f_seconds t) (f_us t)))
   (* specs *)
-  | 20 => with2 d_rd d_dt args (fun d o => e_optv e_dt (spec_add d o))
-  | 21 => with1 d_rd args (fun d => [e_b (wf_rd d)])
-  | 22 => with3 d_dt d_dt d_rd args diff_report
-  | 23 => with1 d_rd args (fun d => [e_b (norm_rel (rel d)); e_b (rd_empty d); e_b (no_relative d)])
-  | 24 => with2 d_dt d_z args (fun o k => e_optv e_dt (month_shift o k))
-  | 25 => with2 d_z d_z args (fun y n => e_optv (fun '(a, b, c) => [a; b; c]) (spec_yearday_date y n))
-  | 26 => with2 d_z d_z args (fun y n => e_optv (fun '(a, b, c) => [a; b; c]) (spec_nlyearday_date y n))
-  | 27 => with2 d_rd d_dt args (fun d o => e_optv e_dt (spec_add_raw d o))
+  | 40 => with1 d_rel args (fun r => e_rel (spec_fix_rel r))
+  | 41 => with2 d_rd d_rd args (fun a b => [e_b (spec_eqb a b)])
+  | 42 => with1 d_rd args (fun d => [e_b (wf_b d); e_b (no_rel d); e_b (empty_b d)])
+  | 43 => with1 d_rd args e_canon
   | _ => bad
   end.
 
